@@ -16,6 +16,8 @@ def c11_stats(cases, model):
             if f[0] == "setup":
                 setups["clients=%s dial=%s" % (f[1], f[3])] += 1
                 continue
+            if f[0] not in ("req", "raw"):
+                continue
             sizes.append(len(f[-1]))
             p = i.split(" ")
             status[p[0]] += 1
@@ -29,7 +31,7 @@ def c11_stats(cases, model):
 def c11_nontrivial(c, ms):
     """a case is non-trivial if some request in it was rejected (4xx) or produced an event"""
     for o, i in zip(c["ops"], c.get("impl") or []):
-        if o.startswith("setup"):
+        if not (o.startswith("req ") or o.startswith("raw ")):
             continue
         p = i.split(" ")
         if p[0] != "200" or (len(p) > 2 and p[2] != "-"):
@@ -43,29 +45,42 @@ CONFIG = dict(
         "C11_shape_facts", "C11_guards_cover_derefs", "C11_answered", "C11_never_fatal", "C11_gateway_exact", "C11_gateway_converse",
         "C11_malformed_no_event", "C11_invalid_no_event", "C11_consumers_total", "C11_fixup_entries_ok",
         "C11_run_answered", "C11_unvalidated_update_kills_hub", "C11_unvalidated_delete_closes_room",
-        "C11_unchecked_sessions_500"]],
-    generated=["ShapesBackend"],
+        "C11_unchecked_sessions_500", "C11_locks_balanced", "C11_incall_stays_in_room"]],
+    generated=["ShapesBackend", "LockBalance"],
     harness=dict(pkg="signaling", test="TestVerifC11", go="go1.26"),
     stats=c11_stats,
     nontrivial=c11_nontrivial,
-    rule="one fresh in-process Hub+BackendServer per case (testing/synctest bubble, in-memory connections): "
-         "0 or 2 websocket clients (one joined to the room), optional internal dial-out client with 5 reply policies; "
-         "1-3 signed requests per case built from a well-formed template of one of the 9 types (+transient) with 0-2 "
-         "structural mutations (member dropped / null / wrong-typed / emptied / duplicated / renamed / unknown member / "
-         "huge list), odd or unknown types, swapped sub-objects, non-object top levels, and a raw stream of byte strings "
-         "that are no JSON; one over-long body; request to the existing and to an absent room. Observed: HTTP status or "
-         "transport error, two liveness probes through the hub main loop, set of events at both clients, room digest. "
-         "A case is non-trivial if a request was rejected or produced an event; distinct = distinct op lists",
+    rule="one fresh in-process Hub+BackendServer per case (testing/synctest bubble, in-memory connections). Worlds: the "
+         "one-room world of `setup` (0 or 2 websocket clients, one joined; optional internal dial-out client with 5 reply "
+         "policies) and 12 scripted openings built from world ops (conn/join/leave/bye/iconn/ijoin/virt/vrem): two rooms of "
+         "the same backend, three clients, sessions that left / moved / said bye, a room that went away, one user in two "
+         "rooms, an internal client in a room with virtual sessions (one removed). Requests: 1-4 signed requests per case "
+         "built from a well-formed template of one of the 9 types (+transient) whose session ids / public ids are drawn from "
+         "that world (members of the target room, of OTHER rooms, stale ids), with 0-2 structural mutations (member dropped / "
+         "null / wrong-typed / emptied / duplicated / renamed / unknown member / huge list), odd or unknown types, swapped "
+         "sub-objects, non-object top levels, a raw stream of byte strings that are no JSON, one over-long body; sent to "
+         "existing rooms and to an absent one; plus systematic blocks (every type x member x wrong value; every opening x "
+         "room x session id x the id-resolving request types; delete of every room). Observed per request: HTTP status or "
+         "transport error (reply budget 30 s virtual), liveness (in every room with a connected member and in a room of the "
+         "probe client's own: a participants request through the hub main loop and a room message must arrive within 5 s "
+         "virtual, the probe client must be able to join and leave; a watchdog on the real clock turns a server goroutine "
+         "stuck in a mutex wait into `hung@<function>`), set of events at all clients, digest of all rooms (properties, "
+         "sessions in the call). A case is non-trivial if a request was rejected or produced an event; distinct = distinct "
+         "op lists",
     trusted_base=["encoding/json + easyjson decoding of BackendServerRoomRequest (the theorems quantify over decoded values; "
                   "the driver's reimplementation of the decoder is only exercised by the correspondence)",
                   "net/http recovering handler panics by dropping the connection; testing/synctest quiescence",
+                  "tools/extract/lockbalance.go: go/ast abstract interpretation of lock/unlock pairs per function (mutexes named by "
+                  "source text; calls resolved only for methods of the same receiver; function values, locks passed around and "
+                  "cross-type lock order are outside it) -- the dynamic probes cover what it cannot see on the generated paths",
                   "harness JSON printer and the small JSON reader in Driver/C11.lean"],
     assumptions=["the event bus accepts publications (a NATS outage makes roomHandler answer 500; loopback NATS in the run)",
                  "C11_answered is stated for a cooperative or absent dial-out client (a third party): when the internal "
                  "client rejects, mis-answers or ignores a well-formed dial-out request the reply is 502/504 "
                  "(C11_gateway_exact characterises exactly these); the judge marks those steps 'na'",
-                 "one hub without clustering; at most one room with members; secondary join/leave notifications between "
-                 "several members and media permissions are outside the model (C04/C05/C08)",
+                 "one hub without clustering, one backend, one internal client besides the dial-out client; join/leave "
+                 "notifications caused by the scripted world ops are not observed (C04/C05), media permissions are outside "
+                 "the model (C08)",
                  "requests whose two delivery paths to the same client race (disinvite by user id and by session id at once; "
                  "delete naming the member's own user) are modelled sequentially and avoided by the generator"],
 )
@@ -78,8 +93,12 @@ MANIFEST = dict(
          "and position of the CheckValid call, the handler's and consumers' case lists and dereference sets are "
          "regenerated from the Go source; with them: every decoded body (or decode error) is answered 2xx/4xx without "
          "any failure outcome, a malformed request publishes nothing and leaves the state unchanged, and all published "
-         "room messages are consumed without failure in every later state. Tied to the code by the extraction and a "
-         "differential run of the real server (status, liveness, events, room digest) on structurally mutated signed bodies.",
+         "room messages are consumed without failure in every later state (any number of rooms, sessions of other rooms named "
+         "in a request stay untouched). 'Responsive' rests on a regenerated lock-balance table of every function of the "
+         "package (no path leaves a mutex locked or takes it twice; reviewed exceptions listed). Tied to the code by the "
+         "extraction and a differential run of the real server (status, liveness probes through the hub main loop, the room "
+         "subscribers and a joining client, events, digest of all rooms) on structurally mutated signed bodies in "
+         "multi-room worlds.",
     note="Defect found and fixed (d040bbc): no validation — nil sub-object panics in the handler, 'update' killed the hub "
          "main loop, 'delete' closed the room before panicking, undecodable switchto sessions gave 500. JSON decoders "
          "trusted. 502/504 of a failing dial-out client are outside the full theorem (characterised exactly).",
